@@ -101,6 +101,9 @@ def main(ctx: Ctx) -> int:
             cases.append({"fmt": "leeds", "code": 4, "a": 2.5e-10, "b": 0.0, "c": c_, "sh": sh_, "r1": sh_})
     for c_ in (-2.5, 2.5):
         cases.append({"fmt": "uclchem", "code": "PHOTON", "a": 2.5e-10, "b": 0.0, "c": c_, "sh": "CO", "r1": "CO"})
+    # KIDA lines whose coefficients carry more digits than the database prints (the columns are blank-separated and read as written)
+    for code_ in (1, 2, 3, 4, 5):
+        cases.append({"fmt": "kida", "code": code_, "a": 4.6712345e-10, "b": -0.33333333, "c": 304.56789, "sh": "", "r1": "CH", "long": True})
     # groups of cases rendered as ONE network: every case alone, plus pairs of entries of the SAME reaction (same species, window and
     # type) with different coefficients, as merged databases and multi-fit entries have them: each k[i] must follow its own line
     groups = [[ci] for ci in range(len(cases))]
@@ -130,7 +133,11 @@ def main(ctx: Ctx) -> int:
                    "c": cs["c"], "tmin": -1.0, "tmax": -1.0, "idx": pos + 1, "code": code}
             if fmt == "leeds":
                 rec["tmin"], rec["tmax"] = 0.0, 0.0
-            lines.append(encoders.ENCODERS[fmt](rec))
+            ln_ = encoders.ENCODERS[fmt](rec)
+            if cs.get("long"):
+                for k_ in ("a", "b", "c"):
+                    ln_ = ln_.replace(f"{cs[k_]:10.3e}", f" {cs[k_]!r}", 1)
+            lines.append(ln_)
         f = ctx.sub("in") / f"{gi}.txt"
         f.write_text("\n".join(lines) + "\n")
         sts, refused = None, None
@@ -145,7 +152,7 @@ def main(ctx: Ctx) -> int:
             raise MachineryError(f"{len(sts)} rate statements for {len(grp)} lines: {lines}")
         for pos, ci in enumerate(grp):
             cs = cases[ci]
-            a, b, c = (printed_value(fmt, k, cs[k]) for k in ("a", "b", "c"))
+            a, b, c = (cs[k] if cs.get("long") else printed_value(fmt, k, cs[k]) for k in ("a", "b", "c"))
             obs = {"refused": False, "valid": True, "tree": ["none"], "expr": "", "err": ""}
             if refused is not None:
                 obs["refused"], obs["err"] = True, refused
